@@ -52,6 +52,7 @@ func checkC03(c *Ctx) {
 	r.Assumptions = []string{"strings.Concat/slice.Map/Zip/Mapi/Skip preserve order (C13/C14)"}
 	r.Rule("C03.ab", "naming/shape closed forms and declaration/call emission templates are the documented ones", 30)
 	r.Rule("C03.c", "external functions and types enter the enclosing scope only under their package-qualified names", 5)
+	r.Rule("C03.e", "fields, cases, parameters, arguments, elements and statements keep their order through every pass between parser and emitter: a list rebuilt from the same list of an existing node is an element-wise image (Map/Mapi/Zip) of it", 8)
 	r.Rule("C03.d", "field, payload, parameter and result types are mapped by the documented type grammar and printer (the closed forms and base-type table of C15)", 20)
 	r.Rule("FOI", "every shipped package_info declaration agrees with the Go signature it describes", 60)
 	f := c.LoadFC("fc")
@@ -60,6 +61,7 @@ func checkC03(c *Ctx) {
 	}
 	c.checkPins(f, "C03.ab", c03Pins)
 	checkExternalNamesQualified(c, "C03.c", f)
+	checkListOrder(c, "C03.e", f)
 	// "mapped field types", payload and parameter types: the type parser and printer of C15
 	r.Import("C15.", "C03.d", "", 20, func() { checkC15(c) })
 	checkFOI(c, "FOI")
